@@ -49,6 +49,9 @@ def random_project(rng: random.Random, root="r", max_depth=4, n_dirs=None, n_fil
     importable = [m for m in modules if not any(ch in c for c in m for ch in "+($[-")]
     slots = pj.usable_slots()
     stmts = []
+    # concrete layout per file: mostly one statement per line; some files have no import at the start of a line at
+    # all (everything behind a semicolon / on the header line of its compound statement); some are mixed
+    file_mode = {tuple(f): rng.choice(["line"] * 6 + ["unanchored", "mixed", "mixed"]) for f in pyfiles}
     rel_dirs = set()
     n_stmts = n_stmts if n_stmts is not None else rng.randint(0, 3 * max(1, len(pyfiles)))
     for _ in range(n_stmts if pyfiles else 0):
@@ -103,6 +106,9 @@ def random_project(rng: random.Random, root="r", max_depth=4, n_dirs=None, n_fil
             continue
         if "*" in st["names"]:
             pos = []                                       # 'import *' is only legal at module level
+        mode = file_mode.get(tuple(f), "line")
+        st["lay"] = ("line" if mode == "line" else rng.choice(["semicolon", "inline"]) if mode == "unanchored"
+                     else rng.choice(list(pj.LAYOUTS)))
         st.update({"file": list(f), "pos": pos, "alias": rng.random() < 0.2,
                    "grp": (rng.randint(0, 2) if st["form"] == "import" and rng.random() < 0.4 else None)})
         stmts.append(st)
@@ -116,3 +122,30 @@ def sub_dirs(project):
 
 def depth(project):
     return max(len(f["name"]) for f in project["files"]) if project["files"] else 1
+
+
+def add_link(project, rng):
+    """The project plus one directory that is a SYMBOLIC LINK to another directory of the tree.  The scanner follows
+    links, so a linked directory is a directory with the same content under another name: in the abstract project it
+    is simply a copy (directories, files, statements with the importing file renamed); only the renderer makes it a
+    link ("links": [[link, target]]).  Returns None when the tree has no directory that can be linked."""
+    dirs = [tuple(d) for d in project["dirs"]]
+    targets = [d for d in dirs if len(d) > 1 and not any(ch in c for c in d for ch in "+($[-")]
+    if not targets:
+        return None
+    t = rng.choice(targets)
+    parents = [d for d in dirs if d[:len(t)] != t]            # the link must not live inside its own target
+    taken = set(dirs) | {tuple(f["name"]) for f in project["files"]}
+    for _ in range(20):
+        link = rng.choice(parents) + (rng.choice(["lnk", "legacy", t[-1] + "2", "a", "zz"]),)
+        if link not in taken:
+            break
+    else:
+        return None
+    ren = lambda n: list(link) + list(n[len(t):])
+    p = dict(project)
+    p["dirs"] = project["dirs"] + [ren(d) for d in project["dirs"] if tuple(d[:len(t)]) == t]
+    p["files"] = project["files"] + [dict(f, name=ren(f["name"])) for f in project["files"] if tuple(f["name"][:len(t)]) == t]
+    p["stmts"] = project["stmts"] + [dict(s, file=ren(s["file"])) for s in project["stmts"] if tuple(s["file"][:len(t)]) == t]
+    p["links"] = [[list(link), list(t)]]
+    return p
